@@ -51,7 +51,7 @@ claim('C43', 'E2+E1', 'exhaustive enumeration of histories x history-command par
       'Every history (depth <= 3-4) x since x limit x reverse x HistoryMaxPublicationLimit; replies must respect the limit, equal Node.History for the effective filter, reject reverse with since offset 0; presence/presence_stats replies equal the node-level results for all 125 membership configurations. Overlap variant: limits {-1,0,1,2}^2 x HistoryMaxPublicationLimit {0,2}; each of two overlapping reads must return what it returns alone.',
       'Memory broker / presence manager only.')
 claim('C09', 'E2+E1', 'exhaustive enumeration of command sequences (length <= 3-4 over 16 methods x ids, JSON and Protobuf, command and frame entry points incl. one that ignores the reader verdict like the emulation / SSE / HTTP-stream handlers, malformed frames) on the real dispatch code; async handler completions explored by the scheduler',
-      'Every command sequence up to the stated length through HandleCommand / HandleReadFrame; before connect any other command must close with bad request without handler invocations, every id gets exactly one reply unless closed, unsolicited pong closes.',
+      'Every command sequence up to the stated length through HandleCommand / HandleReadFrame; before connect any other command must close with bad request without handler invocations, every id gets exactly one reply unless closed, unsolicited pong closes (also after an answered ping whose pong check has run). Harness filterrefresh adds: every sub_refresh command (also one that changes a map subscription\'s server tags filter) gets exactly one reply.',
       'Handlers complete synchronously except in the async variants (bound 1-2).')
 claim('C17', 'E2', 'exhaustive enumeration of operation histories (publish/history/remove/advance over a virtual clock, depth-bounded, 1-2 channels) on the real Memory broker against a slice + top + epoch model',
       'Every history up to depth 4-6 (8-11 for the small alphabets, one of them with a metadata TTL shorter than the history TTL followed by a long one) with all since/limit/reverse probes at the end; offsets, history content, top and epoch must match the model; expiry instants are constrained only as far as the statement fixes them.',
